@@ -3,7 +3,7 @@
     hypotheses, for two genesis paths at /repo HEAD.  Each witness below was replayed on the real code
     by the C15 harness (corpus cases of harness/cmd/c15/corpus.go; KNOWN_FINDINGS.txt). *)
 From Teleport Require Import Base.Bytes Base.Outcome Model.Rvesting Model.Halt Model.HaltAgg.
-From Teleport Require Refuted.C20_refuted.
+From Coq Require Import ZArith Lia.
 Local Open Scope N_scope.
 
 Definition w_header (h extra bloom nonce : N) : header :=
@@ -57,15 +57,22 @@ Proof.
 Qed.
 
 (** D5 - rvesting reward parameters (duplicate / bank-invalid denominations) accepted by the pinned
-    validatePerBlockReward made BeginBlocker panic: proved in Refuted/C20_refuted.v, re-exported. *)
+    validatePerBlockReward made BeginBlocker panic: the witnesses of Refuted/C20_refuted.v, proved here directly (this file does not depend on C20's development
+    beyond Model/Rvesting.v). *)
 Theorem C15_rvesting_params_dup_refuted :
   exists r s, validate_rewards_old r = true /\ (forall d, (0 <= get (pool s) d)%Z) /\
     begin_block {| enable := true; rewards := r |} s = Panic.
-Proof. exact C20_refuted.C20_old_validation_dup_refuted. Qed.
+Proof.
+  exists [(B "atele", 5%Z); (B "atele", 7%Z)], {| pool := [(B "atele", 8%Z)]; fee := []; others := []; supply := [] |}.
+  split; [reflexivity|]. split; [|reflexivity].
+  intro d; cbn [get pool]. destruct (bytes_eqb (B "atele") d); lia.
+Qed.
 
 Theorem C15_rvesting_params_denom_refuted :
   exists r s, validate_rewards_old r = true /\ begin_block {| enable := true; rewards := r |} s = Panic.
-Proof. exact C20_refuted.C20_old_validation_denom_refuted. Qed.
+Proof.
+  exists [(B "1", 5%Z)], {| pool := []; fee := []; others := []; supply := [] |}. split; reflexivity.
+Qed.
 
 (** aggregate genesis at the pinned commit: Validate indexed Denoms[0] before any length check, i.e. the
     validation itself panicked on a pair without denominations.  (Fixed by b7fa650.) *)
